@@ -634,6 +634,7 @@ def check_pool_cases(res: Result, cases: list[dict[str, Any]], rng: common.Rng, 
         bad = pool_oracle(case, obs)
         for key, msg in bad:
             small = shrink_pool_case(case, key)
+            msg = dict(pool_oracle(small, run_pool_case(small))).get(key, msg) if small is not case else msg
             res.violate("oracle", f"pool-{key}", f"{msg} [{describe(small)}]", {"kind": "pool", "case": small})
         diff = compare_with_model(obs, ans)
         if diff is None:
@@ -954,6 +955,8 @@ def check_doe_cases(res: Result, cases: list[dict[str, Any]], deadline: float) -
         bad = doe_oracle(case, par, seq)
         for key, msg in bad:
             small = shrink_doe_case(case, key)
+            if small is not case:
+                msg = dict(doe_oracle(small, run_doe_parallel(small), run_doe_sequential(small))).get(key, msg)
             res.violate("oracle", f"doe-{key}", f"{msg} [{describe_doe(small)}]"[:900], {"kind": "doe", "case": small})
         ans = answers[lo:hi]
         diff = None
@@ -1285,6 +1288,8 @@ def check_disc_cases(res: Result, cases: list[dict[str, Any]], deadline: float) 
         bad = disc_oracle(case, obs)
         for key, msg in bad:
             small = shrink_disc_case(case, key)
+            if small is not case:
+                msg = dict(disc_oracle(small, run_disc_case(small))).get(key, msg)
             res.violate("oracle", f"disc-{case['api']}-{key}", f"{msg} [{describe_disc(small)}]"[:900], {"kind": "disc", "case": small})
         diff = compare_with_model(dict(obs, hang=obs["hang"] or "skip-result"), ans)
         if diff is None and obs["hang"] is None:
@@ -1300,6 +1305,399 @@ def check_disc_cases(res: Result, cases: list[dict[str, Any]], deadline: float) 
                             f"worker-pool model and implementation disagree: {diff} [{describe_disc(case)}]",
                             {"kind": "disc", "case": case, "protocol_lines": obs["lines"], "model_answers": ans,
                              "difference": diff, "correspondence": "Driver/C13.lean transitions S/T/F/C/X + result"})
+
+
+# ----------------------------------------------------------------------------- derivative approximation stream
+# case: {"kind": "fd", "method": "fd"|"centered"|"complex", "x": ["p/q",..], "h_pow": k (step 2**-k),
+#        "coef": [[ints]], "c0": [ints], "q": [ints], "indices": [ints] ([] = all), "n_procs": int, "script": [...]}
+
+
+def fd_task_inputs(case) -> list[list[complex]]:
+    """The inputs of the tasks of the parallel approximation, in submission order."""
+    x = [Fraction(t) for t in case["x"]]
+    h = Fraction(1, 2 ** case["h_pow"])
+    idx = case["indices"] or list(range(len(x)))
+    m = case["method"]
+
+    def pert(i, dh):
+        return [complex(float(v + (dh if j == i else 0)), 0.0) for j, v in enumerate(x)]
+
+    if m == "fd":
+        return [[complex(float(v), 0.0) for v in x]] + [pert(i, h) for i in idx]
+    if m == "centered":
+        return [pert(i, h) for i in idx] + [pert(i, -h) for i in idx]
+    if m == "optstep":
+        return [[complex(float(v), 0.0) for v in x]] + [pert(i, h) for i in idx] + [pert(i, -h) for i in idx]
+    # ComplexStep perturbs component i by 1j * x_i * step (1j * step when x_i = 0)
+    return [[complex(float(v), float((v if v != 0 else 1) * h) if j == i else 0.0) for j, v in enumerate(x)] for i in idx]
+
+
+def fd_pool_view(case) -> dict[str, Any]:
+    n = len(fd_task_inputs(case))
+    return {"n_procs": case["n_procs"], "outcomes": ["ok"] * n, "backend": "process", "lazy": False,
+            "script": case["script"], "reraise": False, "no_cb": True}
+
+
+def _fd_approximator(case, fun, parallel: bool):
+    from gemseo.utils.derivatives.centered_differences import CenteredDifferences
+    from gemseo.utils.derivatives.complex_step import ComplexStep
+    from gemseo.utils.derivatives.finite_differences import FirstOrderFD
+
+    cls = {"fd": FirstOrderFD, "centered": CenteredDifferences, "complex": ComplexStep, "optstep": FirstOrderFD}[case["method"]]
+    kw = {"parallel": True, "n_processes": case["n_procs"]} if parallel else {}
+    return cls(fun, step=2.0 ** -case["h_pow"], **kw)
+
+
+def _fd_gradient(case, approx):
+    import numpy as np
+
+    x = np.array([float(Fraction(t)) for t in case["x"]])
+    if case["method"] == "optstep":
+        steps, errors = approx.compute_optimal_step(x)
+        return [[float(v) for v in np.atleast_1d(steps)], [float(v) for v in np.atleast_1d(errors)]]
+    g = approx.f_gradient(x, x_indices=list(case["indices"])) if case["indices"] else approx.f_gradient(x)
+    return [[float(v) for v in row] for row in np.atleast_2d(np.asarray(g, dtype=float))]
+
+
+def run_fd_case(case) -> dict[str, Any]:
+    from harness import c13_disc
+    from harness.c13_disc import GatedVecFunction
+
+    tasks = fd_task_inputs(case)
+    key_of = {tuple((c.real, c.imag) for c in t): k for k, t in enumerate(tasks)}
+    tok: list[int] = []
+
+    def launch(gate, cb):
+        tok.append(c13_disc.register(gate))
+        fun = GatedVecFunction(case["coef"], case["c0"], case["q"], tok[0], key_of)
+        return _fd_gradient(case, _fd_approximator(case, fun, True))
+
+    first = f"init {case['n_procs']} {rats(range(len(tasks)))} " + ";".join(f"0:{k}:-:-" for k in range(len(tasks)))
+    try:
+        obs = run_gated(fd_pool_view(case), launch, len(tasks), [first])
+    finally:
+        for t in tok:
+            c13_disc.unregister(t)
+    try:
+        fun = GatedVecFunction(case["coef"], case["c0"], case["q"])
+        obs["sequential"] = ("returned", _fd_gradient(case, _fd_approximator(case, fun, False)))
+    except Exception as e:  # noqa: BLE001
+        obs["sequential"] = ("raised", e)
+    return obs
+
+
+def fd_exact(case) -> list[list[Fraction]]:
+    """Closed form of the approximation of f_j = c0_j + sum c_ji x_i + q_j x_0^2 (rows: outputs)."""
+    x = [Fraction(t) for t in case["x"]]
+    h = Fraction(1, 2 ** case["h_pow"])
+    idx = case["indices"] or list(range(len(x)))
+    out = []
+    for row, q in zip(case["coef"], case["q"]):
+        r = []
+        for i in idx:
+            v = Fraction(row[i])
+            if i == 0:
+                v += Fraction(q) * (2 * x[0] + (h if case["method"] == "fd" else 0))
+            r.append(v)
+        out.append(r)
+    return out
+
+
+def fd_oracle(case, obs) -> list[tuple[str, str]]:
+    if obs["hang"] is not None:
+        return [("hang", f"the parallel approximation did not make progress: {obs['hang']}")]
+    kind, val = obs["result"]
+    skind, sval = obs["sequential"]
+    if kind != "returned":
+        return [("raises", f"the parallel approximation raised {val!r} (sequential: {skind} {sval!r})")]
+    bad = []
+    if not (skind == "returned" and val == sval):
+        bad.append(("differs-from-sequential", f"parallel Jacobian {val} differs from the sequential one {skind} {sval}"))
+    want = fd_exact(case)
+    ok = case["method"] == "optstep" or len(val) == len(want) and all(
+        len(r) == len(w) and all(common.is_finite_num(a) and common.F(a) == b for a, b in zip(r, w)) for r, w in zip(val, want))
+    if not ok:
+        bad.append(("wrong-jacobian", f"parallel Jacobian {val} is not the exact value {[[str(v) for v in r] for r in want]} of the approximation formula"))
+    cnt = Counter(obs["started"])
+    n = len(fd_task_inputs(case))
+    if any(cnt.get(k, 0) != 1 for k in range(n)):
+        bad.append(("task-once", f"function evaluations per task {dict(cnt)!r}, expected each exactly once"))
+    return bad
+
+
+def gen_fd_case(rng: common.Rng) -> dict[str, Any]:
+    method = rng.pick(["fd", "fd", "centered", "complex", "optstep"])
+    d = rng.randint(1, 4)
+    m = rng.randint(1, 2)
+    x = [rat(Fraction(rng.randint(-8, 8), 4)) for _ in range(d)]
+    coef = [[rng.randint(-3, 3) for _ in range(d)] for _ in range(m)]
+    for j in range(m):  # distinct columns so that a permutation of the columns is visible
+        for i in range(d):
+            coef[j][i] = coef[j][i] + 4 * i
+    idx = [] if method in ("complex", "optstep") or rng.chance(0.6) or d == 1 else sorted(rng.sample(range(d), rng.randint(1, d - 1)))
+    case = {"kind": "fd", "method": method, "x": x, "h_pow": rng.randint(2, 4), "coef": coef, "c0": [rng.randint(-2, 2) for _ in range(m)],
+            "q": [rng.randint(0, 2) for _ in range(m)], "indices": idx, "n_procs": rng.pick([2, 2, 3, 4])}
+    n = len(fd_task_inputs(case))
+    case["script"] = [list(a) for a in random_script(rng, n, case["n_procs"], ["ok"] * n, False, False, rng.pick(["reverse", "uniform"]))]
+    return case
+
+
+def describe_fd(case) -> str:
+    return (f"{case['method']} x={case['x']} step=2^-{case['h_pow']} coef={case['coef']} q={case['q']} indices={case['indices'] or 'all'} "
+            f"n_processes={case['n_procs']} completion={[a[1] for a in case['script'] if a[0] == 'F']}")
+
+
+def check_fd_cases(res: Result, cases: list[dict[str, Any]], deadline: float) -> None:
+    runs = []
+    for case in cases:
+        if time.time() > deadline:
+            res.notes.append(f"fd: stopped at the time limit after {len(runs)} of {len(cases)} cases")
+            break
+        runs.append((case, run_fd_case(case)))
+    lines: list[str] = []
+    for _, obs in runs:
+        lines.extend(obs["lines"])
+    answers = common.run_lean_driver(PID, lines)
+    pos = 0
+    for case, obs in runs:
+        ans = answers[pos: pos + len(obs["lines"])]
+        pos += len(obs["lines"])
+        res.evaluations += 1
+        order = [a[1] for a in case["script"] if a[0] == "F"]
+        res.count(f"fd-{case['method']}:{'out-of-order' if order != sorted(order) else 'in-order'}-completion")
+        res.nontrivial(("fd", json.dumps(case, sort_keys=True)))
+        res.sample({"stream": "fd", "case": describe_fd(case), "parallel": obs["result"][1] if obs["result"][0] == "returned" else repr(obs["result"][1])}, cap=15)
+        bad = fd_oracle(case, obs)
+        for key, msg in bad:
+            res.violate("oracle", f"fd-{case['method']}-{key}", f"{msg} [{describe_fd(case)}]"[:900], {"kind": "fd", "case": case})
+        diff = compare_with_model(dict(obs, hang=obs["hang"] or "skip-result"), ans)
+        if diff is None:
+            res.traces_validated += 1
+        else:
+            res.disagreements += 1
+            if not bad:
+                res.violate("correspondence", "fd-model-vs-impl", f"worker-pool model and implementation disagree: {diff} [{describe_fd(case)}]",
+                            {"kind": "fd", "case": case, "protocol_lines": obs["lines"], "model_answers": ans, "difference": diff,
+                             "correspondence": "Driver/C13.lean transitions S/T/F/C/X"})
+
+
+# ----------------------------------------------------------------------------- shared cache stream
+# case: {"kind": "cache", "mode": "process"|"thread", "gated": bool, "n_procs": int, "a": int, "b": int,
+#        "xs": ["p/q",..] (distinct when gated), "fail": [task indices], "script": [...]}
+# process: one discipline with a shared-memory MemoryFullCache, forked workers, task i = input i;
+# thread: one discipline object per task (same function), all sharing one MemoryFullCache object.
+
+
+def cache_pool_view(case) -> dict[str, Any]:
+    n = len(case["xs"])
+    outcomes = ["F" if i in case["fail"] else "ok" for i in range(n)]
+    return {"n_procs": case["n_procs"], "outcomes": outcomes, "backend": case["mode"], "lazy": False,
+            "script": case.get("script", []), "reraise": False}
+
+
+def run_cache_case(case) -> dict[str, Any]:
+    import multiprocessing
+
+    from gemseo.caches.memory_full_cache import MemoryFullCache
+    from gemseo.core.parallel_execution.disc_parallel_execution import DiscParallelExecution
+    from numpy import array
+
+    from harness import c13_disc
+    from harness.c13_disc import GatedAffine
+
+    xs = [Fraction(t) for t in case["xs"]]
+    n = len(xs)
+    proc = case["mode"] == "process"
+    tok: list[int] = []
+    made: dict[str, Any] = {}
+    counter = multiprocessing.get_context("fork").Value("i", 0)
+    inputs = [{"x": array([float(x)])} for x in xs]
+
+    def build(token):
+        cache = MemoryFullCache(is_memory_shared=proc)
+        if proc:
+            key_of = {(float(x),): i for i, x in enumerate(xs)} if case["gated"] else None
+            fk = tuple(case["fail"])
+            if not case["gated"]:
+                key_of = {(float(x),): i for i, x in reversed(list(enumerate(xs)))}
+                fk = tuple({key_of[(float(xs[i]),)] for i in case["fail"]})
+            ds = [GatedAffine("D", case["a"], case["b"], "y", token, key_of=key_of, fail_keys=fk, counter=counter,
+                              sleep_of=None if case["gated"] else {i: 0.02 * (n - i) for i in range(n)})]
+        else:
+            ds = [GatedAffine(f"D{i}", case["a"], case["b"], "y", token, key=i, fail_keys=(i,) if i in case["fail"] else (),
+                              counter=counter) for i in range(n)]
+        for d in ds:
+            d.cache = cache
+        made["ds"], made["cache"] = ds, cache
+        return ds
+
+    def launch(gate, cb):
+        tok.append(c13_disc.register(gate))
+        ds = build(tok[0])
+        pe = DiscParallelExecution(ds, n_processes=case["n_procs"], use_threading=not proc)
+        return pe.execute(inputs, exec_callback=lambda i, data: cb(i, _scalar(data["y"])))
+
+    if case["gated"]:
+        a, b = case["a"], case["b"]
+        fails = [rat(xs[i]) for i in case["fail"]]
+        if proc:
+            first = f"init {case['n_procs']} {rats(xs)} {a}:{b}:{'|'.join(fails) or '-'}:-"
+        else:
+            first = f"init {case['n_procs']} {rats(xs)} " + ";".join(
+                f"{a}:{b}:{rat(xs[i]) if i in case['fail'] else '-'}:-" for i in range(n))
+        try:
+            obs = run_gated(cache_pool_view(case), launch, n, [first])
+        finally:
+            for t in tok:
+                c13_disc.unregister(t)
+    else:
+        log: list = []
+        obs = {"hang": None, "lines": [], "checks": [], "started": [], "notes": []}
+        with contextlib.redirect_stderr(io.StringIO()):
+            try:
+                ds = build(None)
+                pe = DiscParallelExecution(ds, n_processes=case["n_procs"], use_threading=not proc)
+                obs["result"] = ("returned", pe.execute(inputs, exec_callback=lambda i, data: log.append((i, _scalar(data["y"])))))
+            except Exception as e:  # noqa: BLE001
+                obs["result"] = ("raised", e)
+        obs["cb_log"] = log
+    cache = made.get("cache")
+    obs["entries"] = None
+    obs["lookups"] = None
+    obs["runs_parallel"] = counter.value
+    if cache is not None and obs["hang"] is None:
+        try:
+            obs["entries"] = [(_scalar(e.inputs.get("x")), _scalar(e.outputs.get("y")) if e.outputs else None)
+                              for e in cache.get_all_entries()]
+            obs["lookups"] = [_scalar(cache[{"x": array([float(x)])}].outputs.get("y")) if cache[{"x": array([float(x)])}].outputs else None
+                              for x in xs]
+            obs["len"] = len(cache)
+            # transparency: executing again from the main process must be served by the cache
+            d0 = made["ds"][0]
+            before = counter.value
+            again = []
+            for i, x in enumerate(xs):
+                if i in case["fail"]:
+                    again.append(None)
+                    continue
+                if d0.execution_status.value == d0.execution_status.Status.FAILED:
+                    d0.execution_status.value = d0.execution_status.Status.DONE
+                d0.key_of, d0.key = None, None  # no gate, no failure on the second pass
+                again.append(_scalar(d0.execute({"x": array([float(x)])})["y"]))
+            obs["again"] = again
+            obs["runs_again"] = counter.value - before
+        except Exception as e:  # noqa: BLE001
+            obs["cache_error"] = repr(e)
+    return obs
+
+
+def cache_oracle(case, obs) -> list[tuple[str, str]]:
+    """Property text: workers sharing a cache give the same data as the sequential computation;
+    the shared cache ends up with exactly the successful inputs, each with its own outputs."""
+    if obs["hang"] is not None:
+        return [("hang", f"the parallel execution did not make progress: {obs['hang']}")]
+    kind, val = obs["result"]
+    if kind != "returned":
+        return [("raises", f"the parallel execution raised {val!r}")]
+    if "cache_error" in obs:
+        return [("cache-raises", f"reading the shared cache raised {obs['cache_error']}")]
+    bad = []
+    xs = [Fraction(t) for t in case["xs"]]
+    n = len(xs)
+    fail_x = {xs[i] for i in case["fail"]}
+    want = [None if x in fail_x else Fraction(case["a"]) * x + case["b"] for x in xs]
+
+    def same(got, w):
+        return (got is None and w is None) or (got is not None and w is not None and common.is_finite_num(got) and common.F(got) == w)
+
+    got = [None if d is None else _scalar(d.get("y")) for d in val] if isinstance(val, list) else None
+    if not (got is not None and len(got) == n and all(same(g, w) for g, w in zip(got, want))):
+        bad.append(("positional-results", f"outputs {got} differ from the sequential map {[None if w is None else str(w) for w in want]}"))
+    if not all(same(g, w) for g, w in zip(obs["lookups"], want)):
+        bad.append(("lookup", f"cache look-ups {obs['lookups']} at the inputs differ from {[None if w is None else str(w) for w in want]}"))
+    exp_entries = {x: Fraction(case["a"]) * x + case["b"] for x in xs if x not in fail_x}
+    with_out = [(common.F(i), o) for i, o in obs["entries"] if o is not None and i is not None]
+    if not (len(with_out) == len(exp_entries) and all(k in exp_entries and common.F(o) == exp_entries[k] for k, o in with_out)
+            and len({k for k, _ in with_out}) == len(with_out)):
+        bad.append(("entries", f"cache entries {obs['entries']} are not exactly one per successful input {sorted(map(str, exp_entries))}"))
+    if not all(same(g, w) for g, w in zip(obs["again"], want)) or obs["runs_again"] != 0:
+        bad.append(("not-transparent", f"re-executing the cached inputs gave {obs['again']} with {obs['runs_again']} new runs (expected the cached values and 0 runs)"))
+    return bad
+
+
+def gen_cache_case(rng: common.Rng) -> dict[str, Any]:
+    mode = rng.pick(["process", "process", "thread"])
+    gated = mode == "thread" or rng.chance(0.6)
+    n = rng.randint(2, 5)
+    xs: list[str] = []
+    while len(xs) < n:
+        t = rat(Fraction(rng.randint(-12, 12), 4))
+        if t not in xs or (not gated and rng.chance(0.5)):
+            xs.append(t)
+    if not gated and n >= 3 and rng.chance(0.6):
+        xs[rng.randint(1, n - 1)] = xs[0]
+    fail = sorted(rng.subset(range(n), 0.3)) if rng.chance(0.4) else []
+    vals = list(xs)
+    fail = sorted({i for i in range(n) if any(vals[i] == vals[j] for j in fail)})
+    case = {"kind": "cache", "mode": mode, "gated": gated, "n_procs": rng.pick([2, 2, 3]), "a": rng.randint(1, 4), "b": rng.randint(-3, 3),
+            "xs": xs, "fail": fail}
+    if gated:
+        view = cache_pool_view(case)
+        case["script"] = [list(a) for a in random_script(rng, n, case["n_procs"], view["outcomes"], False, False, rng.pick(["reverse", "uniform"]))]
+    return case
+
+
+def describe_cache(case) -> str:
+    return (f"shared MemoryFullCache {case['mode']} {'gated' if case['gated'] else 'ladder'} y={case['a']}x+{case['b']} xs={case['xs']} "
+            f"failing={case['fail']} n_processes={case['n_procs']} completion={[a[1] for a in case.get('script', []) if a[0] == 'F'] or 'ladder'}")
+
+
+def check_cache_cases(res: Result, cases: list[dict[str, Any]], deadline: float) -> None:
+    runs = []
+    for case in cases:
+        if time.time() > deadline:
+            res.notes.append(f"cache: stopped at the time limit after {len(runs)} of {len(cases)} cases")
+            break
+        runs.append((case, run_cache_case(case)))
+    lines: list[str] = []
+    spans = []
+    for case, obs in runs:
+        lo = len(lines)
+        lines.extend(obs["lines"])
+        if case["gated"]:
+            order = [a[1] for a in case["script"] if a[0] == "F" and a[1] not in case["fail"]]
+            lines.append("cache " + (rats([Fraction(case["xs"][k]) for k in order]) if order else "[]"))
+        spans.append((lo, len(lines)))
+    answers = common.run_lean_driver(PID, lines)
+    for (case, obs), (lo, hi) in zip(runs, spans):
+        ans = answers[lo:hi]
+        res.evaluations += 1
+        st = f"cache-{case['mode']}-{'gated' if case['gated'] else 'ladder'}"
+        res.count(st)
+        if case["fail"]:
+            res.count(f"{st}:with-failing-tasks")
+        if len(set(case["xs"])) < len(case["xs"]):
+            res.count(f"{st}:with-repeated-inputs")
+        res.nontrivial(("cache", json.dumps(case, sort_keys=True)))
+        res.sample({"stream": "cache", "case": describe_cache(case), "entries": obs.get("entries")}, cap=18)
+        bad = cache_oracle(case, obs)
+        for key, msg in bad:
+            res.violate("oracle", f"cache-{key}", f"{msg} [{describe_cache(case)}]"[:900], {"kind": "cache", "case": case})
+        diff = None
+        if case["gated"]:
+            diff = compare_with_model(dict(obs, hang=obs["hang"] or "skip-result"), ans[:-1])
+            if diff is None and obs.get("entries") is not None:
+                real = ",".join(rat(i) for i, o in obs["entries"] if o is not None) or "[]"
+                if real != ans[-1]:
+                    diff = f"cache layer: model entry order `{ans[-1]}`, real `{real}` for `{lines[hi - 1]}`"
+        if diff is None:
+            res.traces_validated += 1
+        else:
+            res.disagreements += 1
+            if not bad:
+                res.violate("correspondence", "cache-model-vs-impl", f"model and implementation disagree: {diff} [{describe_cache(case)}]",
+                            {"kind": "cache", "case": case, "protocol_lines": lines[lo:hi], "model_answers": ans, "difference": diff,
+                             "correspondence": "Driver/C13.lean `cache` + pool transitions"})
 
 
 # ----------------------------------------------------------------------------- run
@@ -1349,6 +1747,10 @@ def run(ctx) -> Result:
     disc_corpus = [c["case"] for c in corpus if c.get("kind") == "disc"]
     disc_cases = disc_corpus + [gen_disc_case(rng) for _ in range(600 if ctx.thorough else 70)]
     check_disc_cases(res, disc_cases, t_disc)
+    cache_corpus = [c["case"] for c in corpus if c.get("kind") == "cache"]
+    check_cache_cases(res, cache_corpus + [gen_cache_case(rng) for _ in range(300 if ctx.thorough else 30)], ctx.t0 + (ctx.deadline - ctx.t0) * 0.9)
+    fd_corpus = [c["case"] for c in corpus if c.get("kind") == "fd"]
+    check_fd_cases(res, fd_corpus + [gen_fd_case(rng) for _ in range(300 if ctx.thorough else 30)], ctx.t0 + (ctx.deadline - ctx.t0) * 0.92)
     return res
 
 
@@ -1387,6 +1789,25 @@ def replay(path: str) -> int:
         print("impl:", disc_result_string(case, obs), "callbacks:", obs["cb_log"], "hang:", obs["hang"])
         if obs["hang"] is None:
             print("model:", common.run_lean_driver(PID, obs["lines"])[-1])
+        for k, m in bad:
+            print("ORACLE FAILS:", k, m[:600])
+        return 1 if bad else 0
+    if rp.get("kind") == "fd":
+        case = rp["case"]
+        obs = run_fd_case(case)
+        bad = fd_oracle(case, obs)
+        print("case:", describe_fd(case))
+        print("parallel:", obs["result"], "sequential:", obs["sequential"], "hang:", obs["hang"])
+        for k, m in bad:
+            print("ORACLE FAILS:", k, m[:600])
+        return 1 if bad else 0
+    if rp.get("kind") == "cache":
+        case = rp["case"]
+        obs = run_cache_case(case)
+        bad = cache_oracle(case, obs)
+        print("case:", describe_cache(case))
+        print("result:", obs["result"], "entries:", obs.get("entries"), "lookups:", obs.get("lookups"), "again:", obs.get("again"),
+              "runs_again:", obs.get("runs_again"), "hang:", obs["hang"], obs.get("cache_error"))
         for k, m in bad:
             print("ORACLE FAILS:", k, m[:600])
         return 1 if bad else 0
